@@ -49,6 +49,7 @@ struct SampleRun {
         int which = (int) op.arg(1) % 4;      // 2 and 3 are C++-only entry points (no C wrapper exists); they run identically under both views
         begin((uint64_t) op.arg(0), op.s);
         Frv out; memset(out.b, 0xCD, 32); uint64_t c4[4] = {0, 0, 0, 0}; const char* nm;
+        env.stream.watch_lo = out.b; env.stream.watch_hi = out.b + 32; env.stream.watch_hits = 0;
         if (which == 0) { nm = "zp_random"; R.jv_zp_random(view, out.b, jv_rand_cb); }
         else if (which == 1) { nm = "random_zpstar"; R.jv_wk_random_zpstar(view, out.b, jv_rand_cb); }
         else if (which == 2) { nm = "random_zpstar(powers)"; R.jv_wk_random_zpstar_powers(c4, out.b, jv_rand_cb); }
@@ -65,7 +66,7 @@ struct SampleRun {
         Bn got = Bn::from_le(out.b, 32);
         env.check(got == v, "C10", "sample:scalar", strf("%s returned %s, the first accepted candidate of the stream is %s", nm, got.hexstr().c_str(), v.hexstr().c_str()));
         env.check(got < K().r, "C10", "sample:below-modulus", std::string(nm) + " returned a scalar >= r");
-        env.logf("ZP %s %s", nm, v.hexstr().c_str());
+        env.logf("ZP %s %s requests-filled-in-the-output-object=%llu", nm, v.hexstr().c_str(), (unsigned long long) env.stream.watch_hits); env.stream.watch_lo = env.stream.watch_hi = nullptr;
         env.add_case(strf("zp %s rej%llu", nm, (unsigned long long) c.rejections), c.rejections > 0 || !op.s.empty());
     }
 
